@@ -363,9 +363,9 @@ def _falsy(depth):
                    st.sampled_from([True, True, False]), st.sampled_from([False, False, True]))
 
 
-def _raising():
+def _raising(stop=True):
   return st.builds(lambda m, f: {'k': 'call', 'fn': f, 'args': [{'c': m}]}, st.sampled_from(['boom', 'x y', '']),
-                   st.sampled_from(['raise_value_error', 'raise_value_error', 'raise_key_error', 'raise_stop_iteration']))
+                   st.sampled_from(['raise_value_error', 'raise_value_error', 'raise_key_error'] + (['raise_stop_iteration'] if stop else [])))
 
 
 def strat_history(tier):
